@@ -980,9 +980,16 @@ class Table:
         # Read through OUR backend rather than pyarrow's S3 filesystem (#54).
         with data_file_manager.open_parquet_source(data_file.file_path) as src:
             if compute_expr is not None:
-                # pyarrow applies `filters` against all needed columns during the
-                # scan and returns only `columns`, so pushdown is correct here.
-                return pq.read_table(src, columns=columns, filters=compute_expr)
+                # Evaluate the filter exactly as the verified path does (read,
+                # filter, THEN project). Handing it to read_table(filters=...)
+                # also runs it against row-group statistics, which is stricter
+                # about literal types: `id IN ("3")` on a long column raised
+                # here while every other scan API answered it.
+                table = pq.read_table(src)
+                table = table.filter(compute_expr)
+                if columns is not None:
+                    table = table.select(columns)
+                return table
             return pq.read_table(src, columns=columns)
 
     def _scan_table(
